@@ -59,8 +59,8 @@ theorem cTerm_append (i : Nat) (a b : List Ev) : cTerm i (a ++ b) = cTerm i a + 
 theorem cEnv_emit (i : Nat) (e : Env) (ev : Ev) (h : isTerm i ev = false) : cEnv i (e.emit ev) = cEnv i e := by
   simp [cEnv, Env.emit, cTerm_append, cTerm, List.countP_cons, h]
 
-theorem cEnv_discard (i : Nat) (e : Env) (r : Reason) (j : Job) :
-    cEnv i (e.discard r j) = cEnv i e + cj i [j] := by
+theorem cEnv_discard (i : Nat) (e : Env) {h : Option Nat} (r : Reason) (j : Job) :
+    cEnv i (e.discard h r j) = cEnv i e + cj i [j] := by
   cases h : (j.id == i) <;>
     simp [cEnv, Env.discard, Env.emit, cTerm, cj, List.countP_append, List.countP_cons, isTerm, h] <;> omega
 
@@ -76,9 +76,8 @@ theorem cEnv_accept (i : Nat) (e : Env) (j : Job) : cEnv i (e.accept j) = cEnv i
 
 @[simp] theorem emit_actors (e : Env) (ev : Ev) : (e.emit ev).actors = e.actors := rfl
 @[simp] theorem emit_now (e : Env) (ev : Ev) : (e.emit ev).now = e.now := rfl
-@[simp] theorem emit_hasHandler (e : Env) (ev : Ev) : (e.emit ev).hasHandler = e.hasHandler := rfl
-@[simp] theorem discard_now (e : Env) (r : Reason) (j : Job) : (e.discard r j).now = e.now := rfl
-@[simp] theorem discard_actors (e : Env) (r : Reason) (j : Job) : (e.discard r j).actors = e.actors := rfl
+@[simp] theorem discard_now (e : Env) (h : Option Nat) (r : Reason) (j : Job) : (e.discard h r j).now = e.now := rfl
+@[simp] theorem discard_actors (e : Env) (h : Option Nat) (r : Reason) (j : Job) : (e.discard h r j).actors = e.actors := rfl
 
 /-! ### actors -/
 
@@ -217,9 +216,9 @@ theorem cj_opt (i : Nat) (o : Option Job) : cj i (match o with | some j => [j] |
   cases o <;> rfl
 
 /-- `get_next_non_expired_job`: what leaves the queue is either returned or discarded -/
-theorem getNextNonExpired_count (i : Nat) (mq : List Job) (pend : List Nat) (e : Env) :
-    cj i (getNextNonExpired mq pend e).1.toList + cj i (getNextNonExpired mq pend e).2.1
-      + cEnv i (getNextNonExpired mq pend e).2.2.2 = cj i mq + cEnv i e := by
+theorem getNextNonExpired_count {h : Option Nat} (i : Nat) (mq : List Job) (pend : List Nat) (e : Env) :
+    cj i (getNextNonExpired h mq pend e).1.toList + cj i (getNextNonExpired h mq pend e).2.1
+      + cEnv i (getNextNonExpired h mq pend e).2.2.2 = cj i mq + cEnv i e := by
   induction mq generalizing pend e with
   | nil => simp [getNextNonExpired]
   | cons j rest ih =>
@@ -230,8 +229,8 @@ theorem getNextNonExpired_count (i : Nat) (mq : List Job) (pend : List Nat) (e :
     · rw [ih, cEnv_discard, cj_cons i j rest]
       omega
 
-theorem getNextNonExpired_now (mq : List Job) (pend : List Nat) (e : Env) :
-    (getNextNonExpired mq pend e).2.2.2.now = e.now := by
+theorem getNextNonExpired_now {h : Option Nat} (mq : List Job) (pend : List Nat) (e : Env) :
+    (getNextNonExpired h mq pend e).2.2.2.now = e.now := by
   induction mq generalizing pend e with
   | nil => rfl
   | cons j rest ih =>
